@@ -6,7 +6,7 @@
    signature term under honest material occurring in l is one of those (Dolev-Yao).  The key tag is
    a free field of every key, so each statement holds for every tag assignment (collisions
    included); [nrank] (Go's string order) and the record order are universally quantified. *)
-From Sdns Require Import Common.Base Common.GoList Gen.C01 C01.Model C01.Proofs_sig C01.Proofs_chain C01.Proofs_f9 C01.Proofs_top C01.Proofs_deleg C01.Proofs_pad C01.Proofs_chase C01.Proofs_zone C01.Proofs_descent C01.Proofs_descent_min C01.Proofs_filter C01.Proofs_rrsigq.
+From Sdns Require Import Common.Base Common.GoList Gen.C01 C01.Model C01.Proofs_sig C01.Proofs_chain C01.Proofs_f9 C01.Proofs_top C01.Proofs_deleg C01.Proofs_pad C01.Proofs_chase C01.Proofs_zone C01.Proofs_descent C01.Proofs_descent_min C01.Proofs_filter C01.Proofs_rrsigq C01.Proofs_match.
 Open Scope N_scope.
 
 (* VerifyDS: success means a supported DS of the parent's set is the digest of a key of the child's
@@ -524,6 +524,44 @@ Theorem filter_zone_is_FilterRRsToZone : forall (lbl : N -> list N),
   go_FilterRRsToZone fuel (map emb l) (pres lbl z) = Some (map emb (filter_zone l z)).
 Proof. exact gen_FilterRRsToZone_lemma. Qed.
 Print Assumptions filter_zone_is_FilterRRsToZone.
+
+(* the binding of a signature to the RRset it may cover — class, type covered, label count, owner, owner inside the signer's zone;
+   what verify_one_sig, the signature index and spec_rrsig rest on: the model's [sig_matches_rrset] IS the code's
+   dnssec.signatureMatchesRRset, machine-translated together with miekg's dns.IsRRset, dns.CountLabel / dns.NextLabel (three loops),
+   dns.CanonicalName, dns.Fqdn, strings.ToLower / EqualFold and dnsutil.NameInZone — on the presentation of names whose labels are
+   non-empty and free of '.', backslash and upper-case letters, for every representation of the records as dns.RR values and of
+   the signature as a dns.RRSIG that agrees on the fields the function reads, for RRsets as the validator forms them (one owner,
+   type, class), with fuel >= length of the owner's presentation + 2.  (Replaces the source-text pin sig_matches_src.) *)
+Theorem sig_matches_rrset_is_signatureMatchesRRset : forall (lbl : N -> list N),
+  (forall l, lbl l <> []) -> (forall l c, In c (lbl l) -> c <> 46 /\ c <> 92) -> (forall a b, lbl a = lbl b -> a = b) ->
+  (forall l c, In c (lbl l) -> c < 65 \/ 90 < c) ->
+  forall emb : rr -> I_RR,
+  (forall r, T_RR_Header_Name (I_RR_Header (emb r)) = pres lbl (r_owner r)) ->
+  (forall r, T_RR_Header_Rrtype (I_RR_Header (emb r)) = r_type r) ->
+  (forall r, T_RR_Header_Class (I_RR_Header (emb r)) = r_class r) ->
+  forall fuel g sr s set, sig_agrees lbl g sr s ->
+  (forall h t, set = h :: t -> one_rrset h t /\ (length (pres lbl (r_owner h)) + 2 <= fuel)%nat) ->
+  go_signatureMatchesRRset fuel g (map emb set) = Some (sig_matches_rrset sr s set).
+Proof. exact gen_signatureMatchesRRset_lemma. Qed.
+Print Assumptions sig_matches_rrset_is_signatureMatchesRRset.
+
+(* dns.CountLabel (with dns.NextLabel and its backslash scan) on such a presentation counts the labels *)
+Theorem CountLabel_counts_labels : forall (lbl : N -> list N),
+  (forall l, lbl l <> []) -> (forall l c, In c (lbl l) -> c <> 46 /\ c <> 92) -> (forall a b, lbl a = lbl b -> a = b) ->
+  (forall l c, In c (lbl l) -> c < 65 \/ 90 < c) ->
+  forall fuel n, (length (pres lbl n) + 2 <= fuel)%nat -> go_CountLabel fuel (pres lbl n) = Some (Z.of_nat (length n)).
+Proof. exact gen_CountLabel_lemma. Qed.
+Print Assumptions CountLabel_counts_labels.
+Example sig_match_tie_instance :   (* labels "a"+l: an RRSIG(A) owned by c.b.a., signer b.a., 3 labels, over the A RRset of c.b.a.: bound; 4 labels, or signer cb.a.: not *)
+  let lbl := fun l : N => [97 + l] in
+  let hdr := fun n t => mk_T_RR_Header (pres lbl n) t 1 300 0 in
+  let set := [I_RR_other 1 (hdr [2; 1; 0] 1); I_RR_other 1 (hdr [2; 1; 0] 1)] in
+  let g := fun labels signer => mk_T_RRSIG (hdr [2; 1; 0] 46) 1 15 labels 300 0 0 7 signer [] in
+  go_signatureMatchesRRset 9 (g 3 (pres lbl [1; 0])) set = Some true /\
+  go_signatureMatchesRRset 9 (g 4 (pres lbl [1; 0])) set = Some false /\
+  go_signatureMatchesRRset 9 (g 3 [99; 98; 46; 97; 46]) set = Some false /\
+  go_CountLabel 9 (pres lbl [2; 1; 0]) = Some 3%Z.
+Proof. vm_compute. repeat split; reflexivity. Qed.
 
 Example in_zone_tie_instance :   (* labels "a"+l: c.b.a. is below b.a., cb.a. is not below b.a. *)
   let lbl := fun l : N => [97 + l] in
